@@ -22,6 +22,7 @@ ENTRY = "C03Entry"
 class Plain:
     def __init__(self, nr, nc):
         self.g = [[None] * nc for _ in range(nr)]
+        self.w = nc          # the width of a grid does not vanish with its last row (a 0 x n grid is a grid)
 
     @property
     def nr(self):
@@ -29,7 +30,7 @@ class Plain:
 
     @property
     def nc(self):
-        return len(self.g[0]) if self.g else 0
+        return len(self.g[0]) if self.g else self.w
 
     def apply(self, op):
         k = op[0]
@@ -40,6 +41,7 @@ class Plain:
             while self.nc <= c:
                 for row in self.g:
                     row.append(None)
+                self.w = self.nc
             self.g[r][c] = v
         elif k == "AR":
             _, _, n, s, d = op
@@ -50,6 +52,7 @@ class Plain:
             s = self.nc if s is None else s
             for row in self.g:
                 row[s:s] = [d] * n
+            self.w = self.nc if self.g else self.w + max(n, 0)
         elif k == "DR":
             # a plain grid: only rows that exist can go (a count of zero removes nothing, an over-long count is cut short)
             _, _, n, s = op
@@ -58,8 +61,10 @@ class Plain:
         elif k == "DC":
             _, _, n, s = op
             s = max(self.nc - n, 0) if s is None else s
+            gone = len(range(self.nc)[s:s + max(n, 0)])
             for row in self.g:
                 del row[s:s + max(n, 0)]
+            self.w = self.nc if self.g else self.w - gone
 
 
 def grid_of_dump(d: str):
@@ -323,6 +328,13 @@ def run(ctx: Ctx) -> int:
     for zero in ([("DR", 0, 0, None)], [("DC", 0, 0, None)], [("DR", 0, 0, 1)], [("DC", 0, 0, 2)], [("AR", 0, 0, None, 5)], [("AC", 0, 0, 1, 6)],
                  [("DR", 0, 0, None), ("DC", 0, 0, None), ("W", 0, 1, 1, 8)]):
         rnd.append(gridlib.with_dumps([("N", 4, 3), ("W", 0, 3, 2, 11), ("W", 0, 0, 0, 12)] + zero, 1) + [("RO", 0)])
+    # a table emptied of all its rows or all its columns is still a grid: it saves, reopens to the same (empty) grid and
+    # grows again (round 7: the random generator never deleted the last remaining line)
+    for emp in ([("DR", 0, 3, 0)], [("DR", 0, 3, None)], [("DC", 0, 2, 0)], [("DC", 0, 2, None)],
+                [("DR", 0, 2, 1), ("DR", 0, 1, None)], [("DR", 0, 3, 0), ("DC", 0, 2, 0)]):
+        rnd.append(gridlib.with_dumps([("N", 3, 2), ("W", 0, 0, 0, 11), ("W", 0, 2, 1, 12)] + emp
+                                      + [("RO", 0), ("RO", 0), ("W", 0, 1, 1, 14), ("AR", 0, 1, None, None), ("RO", 0)], 1))
+    rnd.append(gridlib.with_dumps([("N", 2, 2), ("N", 3, 3), ("W", 1, 2, 2, 21), ("DR", 0, 2, 0), ("W", 1, 0, 0, 22)], 2) + [("RO", 1), ("RO", 0)])
     # tables whose row count sits on / next to the 256-row tile size, saved and reopened
     for h in ([("N", 256, 2), ("W", 0, 255, 1, 5), ("W", 0, 0, 0, 6), ("RO", 0)],
               [("N", 255, 1), ("AR", 0, 1, None, 7), ("W", 0, 3, 0, 8), ("RO", 0)],
@@ -378,7 +390,7 @@ def run(ctx: Ctx) -> int:
     # "within the remaining extent"): a plain grid loses the rows/columns that exist, and dimensions say so
     over = []
     for pre in ([("DR", 0, 3, 2)], [("DC", 0, 5, 1)], [("DR", 0, 3, 2), ("W", 0, 0, 0, 5), ("AR", 0, 1, None, None)], [("DC", 0, 2, 2), ("AC", 0, 1, 0, 7)],
-                [("DR", 0, 2, 3), ("DR", 0, 1, None)]):
+                [("DR", 0, 2, 3), ("DR", 0, 1, None)], [("DR", 0, 9, 0)], [("DR", 0, 9, None), ("W", 0, 1, 1, 6)], [("DC", 0, 9, 0)]):
         over.append(gridlib.with_dumps([("N", 4, 3), ("W", 0, 3, 2, 11), ("W", 0, 0, 0, 12)] + pre, 1) + [("RO", 0)])
     for i, h in enumerate(over):
         oracle_history(ctx, "over-long-deletions", h, gridlib.run_impl(ctx.tmp, f"over{i}", h))
